@@ -50,6 +50,10 @@ class Boom(Exception):
     pass
 
 
+class BoomBase(BaseException):
+    """A fault that is not an `Exception` (like KeyboardInterrupt, GeneratorExit, a cancelled task)."""
+
+
 def preimport():
     setup()
 
@@ -162,12 +166,20 @@ def _gen_block(w, depth, budget, allow_mut, sid, tid, recent=None):
             first = [{"k": "add", "id": sid[0] * 100 + 1, "name": nm, "again": False},
                      {"k": "obs", "id": sid[0] * 100 + 2, "name": nm}]
             if w.random() < 0.6:
-                first.append({"k": "raise", "id": sid[0] * 100 + 3})
+                first.append({"k": "raise", "id": sid[0] * 100 + 3, "base": w.random() < 0.35})
             block.append({"k": "ctx", "id": sid[0] * 100 + 4, "body": first, "catch": True})
             block.append({"k": "ctx", "id": sid[0] * 100 + 5, "catch": True,
                           "body": [{"k": "obs", "id": sid[0] * 100 + 6, "name": nm}]})
             continue
-        if r < 0.28 and depth < 3:
+        if r < 0.05 and depth < 2:
+            # the context manager used as a function decorator: every call of the helper opens a context of its
+            # own; the helper re-enters itself `levels` times; the decorator object is private to this
+            # statement or the one all threads of the run share
+            body = _gen_block(w, depth + 1, budget, True, sid, tid, recent)
+            block.append({"k": "ctxdec", "id": sid[0], "body": body, "levels": w.choice([0, 0, 1, 1, 2]),
+                          "shared": w.random() < 0.5, "catch": w.random() < 0.6,
+                          "after": [{"k": "obs", "id": sid[0] * 1000 + 7, "name": obs_name()}]})
+        elif r < 0.28 and depth < 3:
             body = _gen_block(w, depth + 1, budget, True, sid, tid, recent)
             block.append({"k": "ctx", "id": sid[0], "body": body, "catch": w.random() < 0.6})
         elif r < 0.45 and allow_mut:
@@ -186,7 +198,7 @@ def _gen_block(w, depth, budget, allow_mut, sid, tid, recent=None):
         elif r < 0.80:
             block.append({"k": "obs", "id": sid[0], "name": obs_name()})
         elif r < 0.86 and depth > 0:
-            block.append({"k": "raise", "id": sid[0]})
+            block.append({"k": "raise", "id": sid[0], "base": w.random() < 0.35})
         elif r < 0.93:
             mode = w.choice(["plain", "fixed", "alt", "alt_bad", "fixed_bad"])
             block.append({"k": "decompose", "id": sid[0], "mode": mode, "rule": w.randrange(4),
@@ -237,7 +249,7 @@ def _strip(block):
     for st in block:
         if st["k"] == "decompose" and not st["mode"].endswith("_bad"):
             out.append({"k": "obs", "id": st["id"], "name": "CRX"})
-        elif st["k"] == "ctx":
+        elif st["k"] in ("ctx", "ctxdec"):
             out.append(dict(st, body=_strip(st["body"])))
         else:
             out.append(st)
@@ -291,6 +303,8 @@ def run_case(case):
         if len(violations) < 5:
             violations.append({"klass": klass, "sig": sig, "detail": detail})
 
+    shared_dec = [qp.decomposition.local_decomps()]  # one decorator object used by every thread of the run
+
     def make_thread(tname, prog, slot, is_child=False):
         model = _Model(g0)
         mk = [0]
@@ -335,9 +349,33 @@ def run_case(case):
                             finally:
                                 model.pop()
                                 open_ctx[tname] -= 1
-                    except Boom:
+                    except (Boom, BoomBase):
                         if not st["catch"]:
                             raise
+                elif k == "ctxdec":
+                    dec = shared_dec[0] if st["shared"] else qp.decomposition.local_decomps()
+                    counters["decorator_form_calls"] = counters.get("decorator_form_calls", 0) + 1
+
+                    @dec
+                    def helper(level, _st=st):
+                        counters["context_entries"] += 1
+                        model.push()
+                        open_ctx[tname] = open_ctx.get(tname, 0) + 1
+                        try:
+                            run_block(_st["body"] if level == _st["levels"] else [])
+                            if level > 0:
+                                helper(level - 1)
+                            run_block(_st["after"])
+                        finally:
+                            model.pop()
+                            open_ctx[tname] -= 1
+
+                    try:
+                        helper(st["levels"])
+                    except (Boom, BoomBase):
+                        if not st["catch"]:
+                            raise
+                    observe({"id": st["id"], "name": st["after"][0]["name"]}, None)
                 elif k == "add":
                     if st.get("again") and mk[0] > 0:
                         rule = _ENV["markers"][slot * N_MARK + ((mk[0] - 1) % N_MARK)]
@@ -373,6 +411,9 @@ def run_case(case):
                 elif k == "raise":
                     counters["exceptions_in_context"] += 1
                     trace.log("raise", tname, st["id"])
+                    if st.get("base"):
+                        counters["non_exception_faults"] = counters.get("non_exception_faults", 0) + 1
+                        raise BoomBase()
                     raise Boom()
                 elif k == "decompose":
                     counters["decompose_calls"] += 1
@@ -437,7 +478,7 @@ def run_case(case):
             qp.decomposition.enable_graph()  # the switch is itself a ContextVar: per thread
             try:
                 run_block(prog)
-            except Boom:
+            except (Boom, BoomBase):
                 pass
             # after everything: outside all contexts this thread sees exactly G0
             yield_point(("stmt", tname, "final"))
@@ -533,7 +574,7 @@ def _stmts(block):
     n = 0
     for st in block:
         n += 1
-        if st["k"] == "ctx":
+        if st["k"] in ("ctx", "ctxdec"):
             n += _stmts(st["body"])
     return n
 
@@ -543,10 +584,12 @@ def _drop_variants(block):
     for i in range(len(block) - 1, -1, -1):
         st = block[i]
         yield block[:i] + block[i + 1:]
-        if st["k"] == "ctx":
+        if st["k"] in ("ctx", "ctxdec"):
             for b in _drop_variants(st["body"]):
                 if b:
                     yield block[:i] + [dict(st, body=b)] + block[i + 1:]
+        if st["k"] == "ctxdec" and (st["levels"] or st["shared"]):
+            yield block[:i] + [dict(st, levels=0, shared=False)] + block[i + 1:]
 
 
 def shrink_candidates(case):
